@@ -86,7 +86,10 @@ def check_agree(case, rec):
         elif r.rng.draws:
             raise Violation("construction with a caller-supplied key drew random bytes")
         try:
-            binary = bec.to_binary(sut.writers_for(case))
+            ws = sut.writers_for(case)
+            if len(case["blocks"]) % 2:  # the parameter is annotated Iterable: every other case passes a tuple (seed C07n)
+                ws = tuple(ws)
+            binary = bec.to_binary(ws)
         except Exception as e:
             raise Violation("to_binary raised %s: %s" % (type(e).__name__, e))
         n_ecc = sum(1 for b in blocks if b["kind"] == "ecc")
